@@ -397,7 +397,14 @@ QHistNext == IF Ev.ev = "reset" THEN EmptyMap
                                               ELSE [i \in 1..Len(Ev.res.val) |-> Ev.res.val[i].d2]]) @@ qhist
              ELSE qhist
 
-TraceNext == ((TraceStep \/ TSearch \/ TVSearch \/ TOtherSearch) /\ prev' = Snap /\ qattr' = QAttrNext /\ qhist' = QHistNext)
+\* C23: the same history executed a second time on a fresh path (`twin` = what the second execution logged for the
+\* same call): results and logical observations must be identical; byte identity of the files is recorded separately
+TwinOk == Has(Ev, "twin") =>
+            /\ Chk("twin.logical", Ev.twin.res = Ev.res /\ Ev.twin.obs = Ev.obs)
+            /\ (Ev.twin.fdigest # Ev.fdigest =>
+                  IF "D23_bytes_differ" \in Defects THEN Dev("D23_bytes_differ") ELSE Chk("twin.bytes", FALSE))
+
+TraceNext == ((TraceStep \/ TSearch \/ TVSearch \/ TOtherSearch) /\ TwinOk /\ prev' = Snap /\ qattr' = QAttrNext /\ qhist' = QHistNext)
              \/ ((TCrash \/ TCorrupt) /\ UNCHANGED <<qattr, qhist>>)
 
 TraceSpec == TraceInit /\ [][TraceNext]_tvars
